@@ -87,12 +87,15 @@ BODIES = [
     ("dict_comprehension", "def m(x: int):\n    return ['m', {i: R(t(i, str(i))) for i in range(2)}]", (3,), None),
     ("nested_comprehension", "def m(x: int):\n    return ['m', [[R(t(i * 2 + j, str(j))) for j in range(2)] for i in range(2)]]", (3,), None),
     ("default_argument_of_inner_lambda", "def m(x: int):\n    f = lambda z=R(t(1, 'a')): z\n    return ['m', f()]", (3,), None),
-    ("decorated_inner_def", "def m(x: int):\n    def deco(g):\n        return g\n    @deco\n    def inner(z=R(t(1, 'a'))):\n        return z\n    return ['m', inner()]", (3,), None),
+    ("decorated_inner_def", "def m(x: int):\n    def deco(g):\n        return lambda *a: ['decorated', g(*a)]\n    @deco\n    def inner(z=R(t(1, 'a'))):\n        return z\n    return ['m', inner()]", (3,), None),
+    ("decorated_inner_generator", "def m(x: int):\n    def listify(g):\n        return lambda *a: list(g(*a))\n    @listify\n    def inner(z):\n        yield R(t(1, z))\n        yield z\n    return ['m', inner(str(x))]", (3,), None),
     ("class_body_inside", "def m(x: int):\n    class K:\n        v = R(t(1, 'a'))\n    return ['m', K.v]", (3,), "classbody"),
     ("match_statement", "def m(x: int):\n    match R(t(1, 'a')):\n        case [tag, *rest]:\n            return ['m', tag, R(t(2, 'b'))]\n    return ['m']", (3,), None),
     ("return_in_finally", "def m(x: int):\n    try:\n        raise ValueError\n    except ValueError:\n        return ['m', R(t(1, 'a'))]\n    finally:\n        TRACE.append('f')", (3,), None),
     ("keyword_then_positional_mix", "def m(x: int, *, k: object = None):\n    return ['m', R(t(1, str(x)), k=R(t(2, 'inner')))]", (3,), None),
     ("result_called", "def m(x: int):\n    return ['m', (lambda *a: a)(*R(t(1, 'a')))]", (3,), None),
+    ("recurse_into_the_same_method_that_also_uses_call_next", "def m(x: int):\n    if x > 3:\n        return ['top', call_next(t(2, x))]\n    return ['m', recurse(t(1, x + 1))]", (3,), "both"),
+    ("both_symbols_in_one_method", "def m(x: int):\n    return ['m', recurse(t(1, str(x))), call_next(t(2, x)), recurse(t(3, 'z'))]", (3,), "both"),
     ("while_loop", "def m(x: int):\n    out = ['m']\n    i = 0\n    while i < 2:\n        out.append(R(t(i, str(i))))\n        i += 1\n    return out", (3,), None),
 ]
 
@@ -257,7 +260,9 @@ def main():
         for which in ("recurse", "call_next"):
             n += 1
             label = f"{name}:{which}"
-            tag = {None: "", "iterable": "known_iterable.", "star": "known_star.", "starkw": "known_starkw.", "classbody": "known_classbody."}[pattern]
+            tag = {None: "", "iterable": "known_iterable.", "star": "known_star.", "starkw": "known_starkw.", "classbody": "known_classbody.", "both": ""}[pattern]
+            if pattern == "both" and which == "recurse":
+                continue  # registered once, in the call_next arrangement (a lower method of the same class exists)
             if pattern == "star" and which == "recurse":
                 tag = ""  # recurse(*args) is left as a plain call of the function: supported
             try:
